@@ -269,6 +269,9 @@ func runReplayTest(repo, pkgdir, tags, src string) (bool, bool, string) {
 	of := filepath.Join(tmp, "overlay.json")
 	os.WriteFile(of, ov, 0o644)
 	args := []string{"test", "-overlay", of, "-vet=off", "-count=1", "-timeout", "60s", "-run", "TestVerifReplay"}
+	if strings.Contains(src, "\n// race: true") {
+		args = []string{"test", "-race", "-overlay", of, "-vet=off", "-count=1", "-timeout", "240s", "-run", "TestVerifReplay"}
+	}
 	if tags != "" {
 		args = append(args, "-tags", tags)
 	}
@@ -287,7 +290,7 @@ func runReplayTest(repo, pkgdir, tags, src string) (bool, bool, string) {
 	if err == nil {
 		return true, false, out
 	}
-	if strings.Contains(out, "--- FAIL") || strings.Contains(out, "panic:") {
+	if strings.Contains(out, "--- FAIL") || strings.Contains(out, "panic:") || strings.Contains(out, "WARNING: DATA RACE") {
 		return true, true, out
 	}
 	return false, false, out // build error etc.
